@@ -84,7 +84,7 @@ func VerifC11_DisplayOutputCompleteAtReturn() {
 	verifOwnPanics()
 	verifHexModel()
 	mode := verifParam("schedule", 0, 2) // lazy, round-robin, all schedules with <= 1 preemption
-	verifSchedule(mode, 1+verifTier()) // thorough: up to two preemptions
+	verifSchedule(mode, 1+verifTier())   // thorough: up to two preemptions
 	in := c11Input()
 	w := &c11Writer{}
 	verifWitness("reached")
